@@ -490,6 +490,10 @@ func (x *Exec) frameGoals(fr *Frame, env *CEnv, fin *State) (out []frameGoal) {
 		if k == "$alloc" || mapsFree && strings.HasPrefix(k, "Map.") {
 			continue
 		}
+		if strings.HasPrefix(k, "Lock.") {
+			// ghost lock state is not part of a function's frame (see lock.balanced)
+			continue
+		}
 		skipAll := false
 		for _, ap := range allPrefixes {
 			if k == ap || strings.HasPrefix(k, ap+".") {
